@@ -1,0 +1,112 @@
+//go:build verif
+
+package floatingip
+
+// Contracts of the CRD-backed IPAM (crdIpam) for the verification framework in /verif
+// (comment-only; see /verif/DESIGN.md section 3 for the invariants).
+
+// ---- ghost state: the persisted FloatingIP objects (API server), by object name = IP string ----
+//@ ghost StoreDom mset[string]
+//@ ghost StoreKey mmap[string]string
+//@ ghost StorePolicy mmap[string]mint
+//@ ghost StoreNode mmap[string]string
+//@ ghost StoreUid mmap[string]string
+
+//@ pure ipstr(ip []byte) string = ipString(ip)
+//@ pure storeUnchanged() bool = StoreDom == old(StoreDom) && StoreKey == old(StoreKey) && StorePolicy == old(StorePolicy) && StoreNode == old(StoreNode) && StoreUid == old(StoreUid)
+
+// ---- table invariant (I1-I3 of DESIGN.md) ----
+//@ pure tblOK(m map[string]*FloatingIP) bool = m != nil && forall k string :: k in m ==> m[k] != nil && m[k].pool != nil && ipstr(m[k].IP) == k
+//@ pure freeEntry(f *FloatingIP) bool = f.Key == "" && f.NodeName == "" && f.PodUid == "" && f.Policy == 0
+//@ pure inv(ci *crdIpam) bool = ci.cacheLock != nil && tblOK(ci.allocatedFIPs) && tblOK(ci.unallocatedFIPs) && ci.allocatedFIPs != ci.unallocatedFIPs && (forall k string :: !(k in ci.allocatedFIPs && k in ci.unallocatedFIPs)) && (forall k string :: k in ci.unallocatedFIPs ==> freeEntry(ci.unallocatedFIPs[k]))
+
+// ---- memory = Store on configured IPs ----
+//@ pure entrySynced(k string, f *FloatingIP) bool = StoreDom[k] && StoreKey[k] == f.Key && StorePolicy[k] == f.Policy && StoreNode[k] == f.NodeName && StoreUid[k] == f.PodUid
+//@ pure synced(ci *crdIpam) bool = (forall k string :: k in ci.allocatedFIPs ==> entrySynced(k, ci.allocatedFIPs[k])) && (forall k string :: k in ci.unallocatedFIPs ==> !StoreDom[k])
+
+// ---- the view of one entry and "nothing else changed" ----
+//@ pure sameEntry(p *FloatingIP) bool = p.Key == old(p.Key) && p.Policy == old(p.Policy) && p.NodeName == old(p.NodeName) && p.PodUid == old(p.PodUid) && p.IP == old(p.IP) && p.pool == old(p.pool)
+//@ pure tablesSameExcept(ci *crdIpam, ip string) bool = forall k string :: k != ip ==> ((k in ci.allocatedFIPs) == old(k in ci.allocatedFIPs)) && ((k in ci.unallocatedFIPs) == old(k in ci.unallocatedFIPs)) && ci.allocatedFIPs[k] == old(ci.allocatedFIPs[k]) && ci.unallocatedFIPs[k] == old(ci.unallocatedFIPs[k])
+//@ pure tablesSame(ci *crdIpam) bool = forall k string :: ((k in ci.allocatedFIPs) == old(k in ci.allocatedFIPs)) && ((k in ci.unallocatedFIPs) == old(k in ci.unallocatedFIPs)) && ci.allocatedFIPs[k] == old(ci.allocatedFIPs[k]) && ci.unallocatedFIPs[k] == old(ci.unallocatedFIPs[k])
+//@ pure entriesSameExcept(q *FloatingIP) bool = forall p *FloatingIP :: allocated(p) && p != q ==> sameEntry(p)
+//@ pure ciFieldsSame(ci *crdIpam) bool = ci.allocatedFIPs == old(ci.allocatedFIPs) && ci.unallocatedFIPs == old(ci.unallocatedFIPs) && ci.cacheLock == old(ci.cacheLock) && ci.FloatingIPs == old(ci.FloatingIPs)
+
+// ---- trusted boundary to the API server (store_crd.go): functional contracts ASSUMED ----
+// Each call either fails cleanly (error, Store unchanged) or succeeds with the obvious effect.
+//@ func [C01,C05,C08,C09] (*crdIpam).createFloatingIP trusted
+//@   requires allocated != nil
+//@   modifies StoreDom, StoreKey, StorePolicy, StoreNode, StoreUid
+//@   ensures result != nil ==> storeUnchanged()
+//@   ensures result == nil ==> !old(StoreDom)[ipstr(allocated.IP)]
+//@   ensures result == nil ==> StoreDom == old(StoreDom)[ipstr(allocated.IP) := true] && StoreKey == old(StoreKey)[ipstr(allocated.IP) := allocated.Key] && StorePolicy == old(StorePolicy)[ipstr(allocated.IP) := allocated.Policy] && StoreNode == old(StoreNode)[ipstr(allocated.IP) := allocated.NodeName] && StoreUid == old(StoreUid)[ipstr(allocated.IP) := allocated.PodUid]
+//@ func [C01,C05,C08,C09] (*crdIpam).deleteFloatingIP trusted
+//@   modifies StoreDom
+//@   ensures result != nil ==> StoreDom == old(StoreDom)
+//@   ensures result == nil ==> StoreDom == old(StoreDom)[name := false]
+//@ func [C01,C05] (*crdIpam).updateFloatingIP trusted
+//@   requires toUpdate != nil
+//@   modifies StoreKey, StorePolicy, StoreNode, StoreUid
+//@   ensures result != nil ==> storeUnchanged()
+//@   ensures result == nil ==> old(StoreDom)[ipstr(toUpdate.IP)]
+//@   ensures result == nil ==> StoreKey == old(StoreKey)[ipstr(toUpdate.IP) := toUpdate.Key] && StorePolicy == old(StorePolicy)[ipstr(toUpdate.IP) := toUpdate.Policy] && StoreNode == old(StoreNode)[ipstr(toUpdate.IP) := toUpdate.NodeName] && StoreUid == old(StoreUid)[ipstr(toUpdate.IP) := toUpdate.PodUid]
+
+// small constructors/mutators are inlined at their call sites (their real bodies are executed)
+//@ func New inline
+//@ func (*FloatingIP).Assign inline
+//@ func (*FloatingIP).CloneWith inline
+//@ func (*crdIpam).syncCacheAfterCreate inline
+//@ func (*crdIpam).syncCacheAfterDel inline
+
+// ---- Release: acts only on an (ip, key) match; whole view otherwise unchanged; failure changes nothing ----
+//@ func [C01,C04,C05,C19] (*crdIpam).Release
+//@   let ipS = ipstr(ip)
+//@   requires inv(ci) && synced(ci) && held[ptr(ci.cacheLock)] == 0
+//@   ensures [C01,C05] inv(ci)
+//@   ensures [C05] synced(ci)
+//@   ensures [C04,C01:release-needs-key-match] err == nil ==> old(ipS in ci.allocatedFIPs && ci.allocatedFIPs[ipS].Key == key)
+//@   ensures [C01,C05:release-frees-entry] err == nil ==> !(ipS in ci.allocatedFIPs) && ipS in ci.unallocatedFIPs && ci.unallocatedFIPs[ipS] == old(ci.allocatedFIPs[ipS]) && !StoreDom[ipS]
+//@   ensures [C01,C04:release-frame] tablesSameExcept(ci, ipS) && entriesSameExcept(old(ci.allocatedFIPs[ipS])) && ciFieldsSame(ci)
+//@   ensures [C05,C01:release-failure-atomic] err != nil ==> tablesSame(ci) && storeUnchanged() && sameEntry(old(ci.allocatedFIPs[ipS]))
+//@   modifies map(ci.allocatedFIPs), map(ci.unallocatedFIPs), FloatingIP.Key, FloatingIP.Policy, FloatingIP.UpdatedAt, FloatingIP.NodeName, FloatingIP.PodUid, FloatingIP.Labels, StoreDom
+
+//@ pure attrApplied(f *FloatingIP, key string, attr Attr) bool = f.Key == key && f.Policy == attr.Policy && f.NodeName == attr.NodeName && f.PodUid == attr.Uid
+
+// ---- UpdateAttr: only the entry (ip, key); store first, memory only after the store accepted ----
+//@ func [C01,C04,C05,C19] (*crdIpam).UpdateAttr
+//@   let ipS = ipstr(ip)
+//@   requires inv(ci) && synced(ci) && held[ptr(ci.cacheLock)] == 0
+//@   requires 0 <= attr.Policy && attr.Policy < 65536
+//@   ensures [C01,C05] inv(ci)
+//@   ensures [C05] synced(ci)
+//@   ensures [C04,C01:updateattr-needs-key-match] err == nil ==> old(ipS in ci.allocatedFIPs && ci.allocatedFIPs[ipS].Key == key)
+//@   ensures [C05:updateattr-applies] err == nil ==> attrApplied(ci.allocatedFIPs[ipS], key, attr)
+//@   ensures [C01,C04:updateattr-frame] tablesSame(ci) && entriesSameExcept(old(ci.allocatedFIPs[ipS])) && ciFieldsSame(ci)
+//@   ensures [C05,C01:updateattr-failure-atomic] err != nil ==> storeUnchanged() && (old(ipS in ci.allocatedFIPs) ==> sameEntry(old(ci.allocatedFIPs[ipS])))
+//@   modifies FloatingIP.Key, FloatingIP.Policy, FloatingIP.UpdatedAt, FloatingIP.NodeName, FloatingIP.PodUid, StoreKey, StorePolicy, StoreNode, StoreUid, fresh FloatingIP.IP, fresh FloatingIP.pool, fresh FloatingIP.Labels
+
+// ---- AllocateSpecificIP: only a free IP; relies on the store's create conflict between its two critical sections ----
+//@ func [C01,C05,C09,C19] (*crdIpam).AllocateSpecificIP
+//@   let ipS = ipstr(ip)
+//@   requires inv(ci) && synced(ci) && held[ptr(ci.cacheLock)] == 0
+//@   requires 0 <= attr.Policy && attr.Policy < 65536
+//@   ensures [C01,C05] inv(ci)
+//@   ensures [C05] synced(ci)
+//@   ensures [C01,C09:specific-only-free] err == nil ==> old(ipS in ci.unallocatedFIPs)
+//@   ensures [C01,C05:specific-allocates] err == nil ==> ipS in ci.allocatedFIPs && !(ipS in ci.unallocatedFIPs) && attrApplied(ci.allocatedFIPs[ipS], key, attr) && fresh(ci.allocatedFIPs[ipS])
+//@   ensures [C01:specific-frame] tablesSameExcept(ci, ipS) && (forall p *FloatingIP :: allocated(p) ==> sameEntry(p)) && ciFieldsSame(ci)
+//@   ensures [C05,C01:specific-failure-atomic] err != nil ==> tablesSame(ci) && storeUnchanged()
+//@   modifies map(ci.allocatedFIPs), map(ci.unallocatedFIPs), fresh FloatingIP.*, StoreDom, StoreKey, StorePolicy, StoreNode, StoreUid
+
+// ---- handleFIPAssign / handleFIPUnassign: watch handlers for administrator-made reservations ----
+// The object is already in the store when the add event arrives, so `synced` is not part of
+// these contracts; they keep the table invariant and touch only the named IP.
+//@ func [C01,C09,C19] (*crdIpam).handleFIPAssign
+//@   requires inv(ci) && held[ptr(ci.cacheLock)] == 0
+//@   ensures [C01,C09] inv(ci)
+//@   ensures [C01,C09:assign-refuses-allocated] forall k string :: old(k in ci.allocatedFIPs) ==> k in ci.allocatedFIPs && ci.allocatedFIPs[k] == old(ci.allocatedFIPs[k]) && sameEntry(ci.allocatedFIPs[k])
+//@   ensures [C09:assign-moves-free-only] forall k string :: (k in ci.allocatedFIPs) && !old(k in ci.allocatedFIPs) ==> old(k in ci.unallocatedFIPs) && !(k in ci.unallocatedFIPs)
+//@   modifies map(ci.allocatedFIPs), map(ci.unallocatedFIPs), FloatingIP.Key, FloatingIP.Policy, FloatingIP.UpdatedAt, FloatingIP.NodeName, FloatingIP.PodUid, FloatingIP.Labels, fresh mapsof(map[string]string)
+//@ func [C01,C09,C19] (*crdIpam).handleFIPUnassign
+//@   requires inv(ci) && held[ptr(ci.cacheLock)] == 0
+//@   ensures [C01,C09] inv(ci)
+//@   modifies map(ci.allocatedFIPs), map(ci.unallocatedFIPs), FloatingIP.Key, FloatingIP.Policy, FloatingIP.UpdatedAt, FloatingIP.NodeName, FloatingIP.PodUid, FloatingIP.Labels
